@@ -74,6 +74,16 @@ def cfgs_prefetch(tier, inc):
     return out
 
 
+def _c19_run(pid, tier, runmod):
+    import c19
+    return c19.run(pid, tier, runmod)
+
+
+def _c19_replay(d, path, runmod):
+    import c19
+    return c19.replay(d, path, runmod)
+
+
 PROPS = {
     "C01": {"id": "C01", "source": "c01.cpp", "files": INT_VEC_FILES, "min_configs": {"quick": 8, "thorough": 30},
             "configs": cfgs_with_san, "ub_is_violation": True, "digest_binding": True},
@@ -108,10 +118,17 @@ PROPS = {
             "max_success": {"quick": 500, "thorough": 20000}},
     "C20": {"id": "C20", "source": "c20.cpp", "files": ["include/avel/Cache.hpp"], "min_configs": {"quick": 6, "thorough": 12}, "configs": cfgs_prefetch, "max_success": {"quick": 3000, "thorough": 100000},
             "optional_classes": []},
+    "C19": {"id": "C19", "custom": _c19_run, "custom_replay": _c19_replay, "files": []},
     "C02": {"id": "C02", "source": "c02.cpp", "files": INT_VEC_FILES + FLT_VEC_FILES, "min_configs": {"quick": 8, "thorough": 30}, "digest_binding": True},
 }
 
 MANIFEST_TEXT = {
+    "C19": {
+        "technique": "generated-configuration testing: enumerated lattice of feature-macro sets x {explicit, AVEL_AUTO_DETECT} x {g++, clang++} x {C++11..20} and (thorough) Hypothesis-drawn random macro subsets shrunk to a minimal failing set; oracle = compiler/linker exit status of three generated programs (include-only, static_asserts on the documented type system, generic program over a fixed operation table that is compiled and linked)",
+        "level": "Generated-input search over build configurations: P1 includes <avel/Avel.hpp> + <avel/Aligned_allocator.hpp>; P2 static_asserts that exactly the documented widths are complete types (and neighbouring widths are not), sizeof == N*sizeof(T), trivially copyable, masks trivial, width constants, vecNx*/vecMx*/maskNx*/arrNx* alias identities, max width == widest provided, and under AUTO_DETECT the same types as naming the compiler-defined feature macros explicitly; P3 instantiates every operation of the width-1 type for every wider type of the element (incl. Denominator<V>, convert, allocator, prefetch) and must link. Each distinct error (header location, failed assertion, undefined symbol) is reported separately.",
+        "note": "Trusted: g++ 12 / clang++ 14 as the oracle; flags are derived from the documented implications. The operation table is hand-written from the pinned width-1 API (binary operator% on floats is not offered by width 1 and is not in it). MSVC/ICPX/ARM configurations cannot be built here.",
+        "engine": "enumerator + Hypothesis (build configurations)",
+    },
     "C20": {
         "technique": "property-based testing / fault injection by placement: enumerated + rapidcheck-generated prefetch calls with pointers at every cache-line offset, next to and inside PROT_NONE pages, null and misaligned, counts 0..3 pages, all cache levels, typed and untyped; signal guard + arena checksum + /proc/self/maps protection check",
         "level": "Generated-input search over (overload, cache level, pointer placement, offset, n) for prefetch_read / prefetch_write in builds {no macro, AVEL_X86, AVEL_SSE2} x {g++, clang++} x {-O0, -O2 (+ -O1 in thorough)}: the call must return without SIGSEGV/SIGBUS/SIGILL (a fault becomes a failing Case), every byte of the accessible arena must still hold its sentinel and the kernel's view of the six arena pages' protections must be unchanged.",
